@@ -219,6 +219,13 @@ def handleC03 (cmd : String) (args : List Sexp) : Option Sexp :=
         | .ok w => tagged "ok" ((coords dims).map (fun c => match w c with
               | none => ofInt (-1)
               | some vc => ofNat (ravel v vc))))
+  | "c03.setatmulti", [dims, i1, i2, v] => do
+      let dims ← shape? dims; let i1 ← pyIndex? i1; let i2 ← pyIndex? i2; let v ← shape? v
+      pure (match Td.setAtMulti dims i1.items i2.items v with
+        | .error e => errToSexp e
+        | .ok w => tagged "ok" ((coords dims).map (fun c => match w c with
+              | none => ofInt (-1)
+              | some vc => ofNat (ravel v vc))))
   | _, _ => none
 
 end TdVerif.Drive
